@@ -22,12 +22,12 @@ theorem frame_prehash_some (phm ctx : List Nat) (ph : PH) (h : ctx.length ≤ 25
 theorem frame_prehash_none (phm : List Nat) (ph : PH) : frame_prehash phm none ph = frame_prehash phm (some []) ph := by
   unfold frame_prehash; simp
 
-/-- the OIDs in the code are the DER encodings of id-sha256 / id-sha512 (2.16.840.1.101.3.4.2.{1,3}),
-    and they are the ones found in every ml_dsa_*.rs copy (regenerated constants) -/
+/-- the OIDs of the model are the DER encodings of id-sha256 / id-sha512 (2.16.840.1.101.3.4.2.{1,3}), and every
+    OID-shaped literal found anywhere in /repo/src (regenerated constants: 11-entry byte arrays starting with the DER
+    tag 0x06, wherever the code keeps them) is one of the two. (That the code *uses* them in the framing is the tie.) -/
 theorem oids : oidOf .sha256 = [0x06, 0x09, 0x60, 0x86, 0x48, 0x01, 0x65, 0x03, 0x04, 0x02, 0x01]
     ∧ oidOf .sha512 = [0x06, 0x09, 0x60, 0x86, 0x48, 0x01, 0x65, 0x03, 0x04, 0x02, 0x03]
-    ∧ Gen.OIDS_ml_dsa_44 = [oidOf .sha256, oidOf .sha512] ∧ Gen.OIDS_ml_dsa_65 = [oidOf .sha256, oidOf .sha512]
-    ∧ Gen.OIDS_ml_dsa_87 = [oidOf .sha256, oidOf .sha512] := by decide
+    ∧ ∀ o ∈ Gen.OIDS_all, o = oidOf .sha256 ∨ o = oidOf .sha512 := by decide
 
 /-- a context longer than 255 bytes: signing returns no signature (and draws nothing), verification returns false -/
 theorem ctx_too_long (p : Params) (fuel : Nat) (sk pk msg sig ctx : List Nat) (hedged : Bool) (tape : Tape) (ph : PH)
